@@ -327,7 +327,10 @@ class Prop(object):
                 continue
             r.states += 1
             label = '%s protected by the reference: usage %d, S2K spec %d hash %d count %d, cipher %d' % (name, usage, spec, hid, coded, cid)
-            body = renc.protect_secret(raw, pw.encode(), cid=cid, usage=usage, spec=spec, hash_id=hid, coded=coded, salt=b'\x01\x02\x03\x04\x05\x06\x07\x08')
+            # (salt and IV fixed: with the 16-bit checksum of usage 255 a wrong passphrase passes by chance once in 65536 ciphertexts - the ciphertexts must be the
+            # same in every run for the run to be reproducible)
+            body = renc.protect_secret(raw, pw.encode(), cid=cid, usage=usage, spec=spec, hash_id=hid, coded=coded, salt=b'\x01\x02\x03\x04\x05\x06\x07\x08',
+                                       iv=bytes(range(0x21, 0x21 + renc.CIPHERS[cid][2])))
             blob = rkeys.secret_packet(raw, body=body)
             probs = []
             try:
@@ -385,6 +388,34 @@ class Prop(object):
             r.outcomes[oc] += 1
             if probs:
                 r.viol('foreign', {'alg': raw['alg'], 'usage': usage, 'kind': oc}, dict(case, only=i), label + ': ' + '; '.join(probs[:3]))
+        # passphrases longer than the octet count of the iterated specifier (count code 0 = 1024 octets incl. salt): the whole passphrase is hashed once
+        if raw['alg'] != 'elgamal':
+            for coded, n in ((0, 1016), (0, 1017), (0, 1100), (0, 2000), (16, 2041), (96, 70000)):
+                r.states += 1
+                r.transitions += 2
+                lpw = ''.join(chr(0x21 + (i * 11 + n) % 90) for i in range(n))
+                label = '%s protected by the reference with a %d-octet passphrase, iterated S2K count code %d' % (name, n, coded)
+                body = renc.protect_secret(raw, lpw.encode(), cid=9, usage=254, spec=3, hash_id=8, coded=coded, salt=b'\x09\x08\x07\x06\x05\x04\x03\x02', iv=bytes(range(0x31, 0x41)))
+                probs = []
+                try:
+                    key, _ = pgpy.PGPKey.from_blob(rkeys.secret_packet(raw, body=body))
+                    with key.unlock(lpw):
+                        km = A.key_material(key)
+                        if [int(getattr(km, f)) for f in km.__privfields__] != rkeys.secret_ints(raw):
+                            probs.append('unlocked secret integers differ from the encoded ones')
+                    for wname, w in (('tail changed', lpw[:-1] + '~'), ('cut to the count', lpw[:max(0, 1016 if coded == 0 else n - 1)])):
+                        if w == lpw:
+                            continue
+                        try:
+                            with key.unlock(w):
+                                probs.append('a wrong passphrase (%s) unlocked the key' % wname)
+                        except pgpy.errors.PGPDecryptionError:
+                            pass
+                except Exception as e:
+                    probs.append('unexpected %r' % (e,))
+                r.outcomes['ok' if not probs else 'violation'] += 1
+                if probs:
+                    r.viol('foreign', {'alg': raw['alg'], 'kind': 'long-passphrase'}, dict(case, only=-2), label + ': ' + '; '.join(probs[:2]))
         # GNU dummy stub: no secret material at all
         r.states += 1
         stub = rkeys.public_body(raw) + bytes([254, 0, 101, 0]) + b'GNU\x01'
@@ -466,9 +497,9 @@ class Prop(object):
             pws = {'ed25519a': b'primary-pass', 'cv25519a': b'subkey-pass'}
             for p in pk:
                 if p['tag'] == 5:
-                    out += rkeys.secret_packet(prim, body=renc.protect_secret(prim, pws['ed25519a'], coded=0))
+                    out += rkeys.secret_packet(prim, body=renc.protect_secret(prim, pws['ed25519a'], coded=0, salt=b'saltsalt', iv=bytes(16)))
                 elif p['tag'] == 7:
-                    out += rkeys.secret_packet(sub, sub=True, body=renc.protect_secret(sub, pws['cv25519a'], coded=0))
+                    out += rkeys.secret_packet(sub, sub=True, body=renc.protect_secret(sub, pws['cv25519a'], coded=0, salt=b'SALTSALT', iv=bytes(range(16))))
                 else:
                     out += p['raw']
             k2, _ = pgpy.PGPKey.from_blob(bytes(out))
